@@ -60,7 +60,9 @@ func hostileBlob(t *Tape, valid []byte) (blob []byte, kind string) {
 		if len(b) < 12 {
 			return valid, "valid"
 		}
-		sizes := []uint32{0, 1, 1 << 20, 1 << 30, 1<<31 - 1, 1 << 31, 1<<32 - 1}
+		// (up to 256 MiB: enough to show an allocation that follows the
+		// declared size, without sixteen workers exhausting the machine)
+		sizes := []uint32{0, 1, 1 << 20, 1 << 24, 1 << 26, 1 << 28}
 		binary.LittleEndian.PutUint32(b[len(b)-4:], sizes[t.Choose("h-isize", len(sizes))])
 		if t.Choose("h-crc", 2) == 1 {
 			b[len(b)-8] ^= 0xff
@@ -201,7 +203,9 @@ func runHostileSim(env *RunEnv) {
 		// everything allocated while decoding is counted.
 		if alloc, limit := m1.TotalAlloc-m0.TotalAlloc, uint64(memFactor*len(blob)+memSlack); alloc > limit && p == "" {
 			viol = append(viol, Violation{"C08", "memory-proportional", "allocation-not-proportional-to-input",
-				fmt.Sprintf("decoding a %s blob of %d bytes allocated %d bytes (more than %d x the input + %d)", kind, len(blob), alloc, memFactor, memSlack)})
+				// (the exact amount is not part of the message: it differs
+				// by a few bytes from process to process)
+				fmt.Sprintf("decoding a %s blob of %d bytes allocated more than %d bytes (%d x the input + %d)", kind, len(blob), limit, memFactor, memSlack)})
 			sim.Logf("VIOLATION C08 %s", viol[0].Msg)
 			break
 		}
